@@ -133,7 +133,7 @@ fn main() {
   // (language, L, pattern source tokens, P, cut-source L)
   let plan: Vec<(&str, usize, usize, usize, usize)> = if args.thorough() {
     vec![
-      ("javascript", 5, 9, 3, 4),
+      ("javascript", 5, 7, 3, 4),
       ("typescript", 4, 9, 3, 3),
       ("tsx", 4, 9, 3, 3),
       ("python", 4, 9, 3, 3),
